@@ -196,6 +196,9 @@ pub struct Op {
     pub label: String,
     pub issued_at: u64,
     pub done_at: Option<u64>,
+    /// number of steps the owning node had run when the call was issued / completed
+    pub issued_step: u64,
+    pub done_step: Option<u64>,
     pub outcome: Option<Outcome>,
     pub panicked: Option<String>,
     fut: Option<Pin<Box<dyn Future<Output = Outcome>>>>,
@@ -1228,12 +1231,15 @@ impl Sim {
             let mut st = self.inner.st.borrow_mut();
             let id = st.ops.len();
             let now = st.now;
+            let issued_step = st.hosts[host].steps;
             st.ops.push(Op {
                 id,
                 host,
                 label: label.to_string(),
                 issued_at: now,
                 done_at: None,
+                issued_step,
+                done_step: None,
                 outcome: None,
                 panicked: None,
                 fut: None,
@@ -1290,12 +1296,14 @@ impl Sim {
                 Ok(Poll::Ready(out)) => {
                     st.ops[id].outcome = Some(out);
                     st.ops[id].done_at = Some(now);
+                    st.ops[id].done_step = Some(st.hosts[host].steps);
                     st.hosts[host].ops.retain(|x| *x != id);
                     st.mix(&[7, id as u64, now]);
                 }
                 Err(_) => {
                     st.ops[id].panicked = Some(take_panic());
                     st.ops[id].done_at = Some(now);
+                    st.ops[id].done_step = Some(st.hosts[host].steps);
                     st.hosts[host].ops.retain(|x| *x != id);
                     st.mix(&[8, id as u64, now]);
                 }
